@@ -581,3 +581,87 @@ func TestC14LineBreakSignificance(t *testing.T) {
 	sameLineSweep(run, "c14")
 	run.Exhaustive()
 }
+
+// TestC14RespacingAny: the same holds for token sequences the grammar rejects -
+// blanks between tokens decide nothing, so a rejection cannot depend on them.
+func TestC14RespacingAny(t *testing.T) {
+	run := h.Begin("C14", "respacing-any", "rapid: a generated program with one or two token-level mutations (delete, insert a lexeme of the alphabet, swap neighbours, duplicate; mostly no longer derivable), printed once with single spaces and once with random blanks (none where the reference tokenizer confirms no merge, SP, TAB, NBSP, U+3000, BOM, runs of them; no line breaks, leading and trailing blanks included); oracle: both layouts rejected, or both accepted with identical position-free tree dumps; non-trivial: the reference parser rejects the sequence; distinct by the pair of texts")
+	defer run.End(t)
+	h.RapidSetup(h.N(4000, 1200000), "c14respaceany")
+	blanks := []string{"", "", "", "", "", " ", "  ", "\t", "\u00a0", "\u3000", "\ufeff", " \t "}
+	rapid.Check(t, func(rt *rapid.T) {
+		ast := genExpr(rt, &syntaxCfg, rapid.IntRange(1, 4).Draw(rt, "depth"), ref.LvComma)
+		toks := ast.Flatten()
+		for m := rapid.IntRange(1, 2).Draw(rt, "nmut"); m > 0 && len(toks) > 0; m-- {
+			at := rapid.IntRange(0, len(toks)-1).Draw(rt, "at")
+			switch rapid.IntRange(0, 3).Draw(rt, "mut") {
+			case 0:
+				toks = append(toks[:at:at], toks[at+1:]...)
+			case 1:
+				toks = append(toks[:at:at], append([]ref.PTok{{Text: rapid.SampledFrom(c02Alphabet).Draw(rt, "lx")}}, toks[at:]...)...)
+			case 2:
+				if at+1 < len(toks) {
+					toks[at], toks[at+1] = toks[at+1], toks[at]
+				}
+			default:
+				toks = append(toks[:at+1:at+1], toks[at:]...)
+			}
+		}
+		if len(toks) == 0 {
+			return
+		}
+		s1, s2 := make([]string, len(toks)+1), make([]string, len(toks)+1)
+		for i := range s1 {
+			s1[i] = " "
+			s2[i] = rapid.SampledFrom(blanks).Draw(rt, "blank")
+		}
+		s1[0], s1[len(toks)] = "", ""
+		a, b := ref.Join(toks, s1), ref.Join(toks, s2)
+		rejected := ref.Parse([]byte(a)) == nil
+		cls := "accepted"
+		if rejected {
+			cls = "rejected"
+		}
+		run.CountKey(a+"\x00"+b, rejected, cls)
+		run.Sample(cls, []string{a, b})
+		if msg := checkRespace(a, b); msg != "" {
+			run.Pending("respace-any", "c14-respace", [2]string{mkTextCase(a, "").Text, mkTextCase(b, "").Text}, msg)
+			rt.Fatalf("%s", msg)
+		}
+	})
+}
+
+
+// TestC14RespacingSequences: every short token sequence, derivable or not, with and without blanks.
+func TestC14RespacingSequences(t *testing.T) {
+	k1, k2 := h.N(6, 7), h.N(3, 4)
+	run := h.Begin("C14", "respacing-sequences", fmt.Sprintf("bounded-exhaustive: every sequence of 1..%d tokens over {f, (, ), a, ',', ..., [, ], .} and of 1..%d tokens over the 39-lexeme alphabet, printed with single spaces, without any blank (where the reference tokenizer confirms no merge) and with TAB / NBSP / BOM runs; oracle: all three rejected, or all three accepted with identical position-free tree dumps; non-trivial: the reference parser rejects the sequence", k1, k2))
+	defer run.End(t)
+	odd := []string{"\t", "\u00a0 ", "\ufeff", " \u3000"}
+	try := func(alphabet []string, seq []int) {
+		if run.NViolations() >= 3 {
+			return
+		}
+		toks := make([]ref.PTok, len(seq))
+		s1, s2, s3 := make([]string, len(seq)+1), make([]string, len(seq)+1), make([]string, len(seq)+1)
+		for i, x := range seq {
+			toks[i] = ref.PTok{Text: alphabet[x]}
+			s1[i], s3[i] = " ", odd[(i+x)%len(odd)]
+		}
+		s1[0], s3[len(seq)] = "", " "
+		a, b, c := ref.Join(toks, s1), ref.Join(toks, s2), ref.Join(toks, s3)
+		run.Count(ref.Parse([]byte(a)) == nil, "")
+		if len(seq) == 5 && (seq[0]+3*seq[2]+seq[4])%97 == 0 {
+			run.Sample("sequence", []string{a, b, c})
+		}
+		for _, other := range []string{b, c} {
+			if msg := checkRespace(a, other); msg != "" {
+				run.Fail("c14-respace", [2]string{mkTextCase(a, "").Text, mkTextCase(other, "").Text}, msg)
+				return
+			}
+		}
+	}
+	enumSeq(len(c02ListAlphabet), k1, func(seq []int) { try(c02ListAlphabet, seq) })
+	enumSeq(len(c02Alphabet), k2, func(seq []int) { try(c02Alphabet, seq) })
+	run.Exhaustive()
+}
